@@ -98,6 +98,38 @@ def empties_first(prog, b, buf_idx=2):
     return okv, "tests buf.is_empty() first and returns Ok(0) on that edge with no call in between" if okv else "the empty edge does not return Ok(0)"
 
 
+_PLUMBING = re.compile(r"(slice::is_empty|slice::len|Try::branch|FromResidual::from_residual|From::from|Into::into)$")
+
+
+def empties_by_facts(prog, b, buf_idx=2):
+    """Form-independent reading of "an empty buffer is a successful no-op": Ok(0) is returned on a path where the buffer is known
+    to be empty, and every other return and every call that is not pure plumbing happens only where it is known to be non-empty
+    (facts include those carried through the result of an inlined helper)."""
+    def e_fact(facts):
+        for r in facts:
+            if r[0] == 'bool' and is_call(deep_strip(r[1]), 'slice::is_empty') and effects.base_of(deep_strip(r[1])[2][0])[:2] == ('param', buf_idx):
+                return r[2]
+        return None
+    ok0 = False
+    bad = []
+    for pos, term in b.return_terms():
+        r = deep_strip(term)
+        e = e_fact(b.facts_at(pos))
+        if r[0] == 'agg' and r[2] == 'Ok' and deep_strip(r[3][0]) == ('const', 0) and e is True:
+            ok0 = True
+        elif e is not False:
+            bad.append(f"return `{tstr(r)[:60]}` not confined to a non-empty buffer")
+    for c in b.calls():
+        cn = canon(c.target or "")
+        if _PLUMBING.search(cn):
+            continue
+        if e_fact(b.facts_at(c.pos)) is not False:
+            bad.append(f"call {cn.split('::')[-1]} reachable with an empty buffer")
+    if ok0 and not bad:
+        return True, "returns Ok(0) where the buffer is known to be empty; every other return and every non-plumbing call is confined to a non-empty buffer"
+    return False, ("no Ok(0) return on the empty path" if not ok0 else "; ".join(sorted(set(bad))[:3]))
+
+
 def forwards(prog, b, names, buf_idx=2):
     """(ok, target callsite, detail): straight-line body whose only fallible-looking steps are tabled-infallible
     and which forwards buf to a Bytes::<name>"""
@@ -135,6 +167,10 @@ def rule_empty_first(rep, prog):
     verdict = {}
     for bid, b in impls.items():
         ok, detail = empties_first(prog, b)
+        if not ok:
+            ok2, detail2 = empties_by_facts(prog, b)
+            if ok2:
+                ok, detail = ok2, detail2
         if ok:
             verdict[bid] = (True, detail)
             continue
